@@ -689,18 +689,20 @@ class NotModelled(Exception):
 def arg_coq(obj, key, reg):
     """CArg with the facts the model may observe of an argument object"""
     from pypika.terms import Star, EmptyCriterion, Term
-    tabs = []
+    tabs, ftabs = [], []
     if isinstance(obj, Term):
-        tabs = [obj_tbl_coq(f.table, reg) for f in obj.fields_()]
+        from pypika.terms import Field
+        tabs = [obj_tbl_coq(f.table, reg) for f in obj.fields_()]          # _validate_table
+        ftabs = [obj_tbl_coq(f.table, reg) for f in obj.find_(Field)]      # JoinOn.validate
     tab = "None"
     if hasattr(obj, "table"):
         tab = "(Some %s)" % obj_tbl_coq(obj.table, reg)
-    return "(CArg %s %s %s %s %s)" % (S("#" + key), L(tabs), tab, B(isinstance(obj, Star)),
+    return "(CArg %s %s %s %s %s %s)" % (S("#" + key), L(tabs), L(ftabs), tab, B(isinstance(obj, Star)),
                                        B(isinstance(obj, EmptyCriterion)))
 
 
 def const_coq(v):
-    return "(CArg %s [] None false false)" % S("V(%r)" % (v,))
+    return "(CArg %s [] [] None false false)" % S("V(%r)" % (v,))
 
 
 def unaliased_sub_refs(cs):
@@ -790,13 +792,13 @@ def call_coq(call, pos, cls_name):
             return "(CForUpdate _ (Some (%s, %s, %s)))" % (B(call[1]), B(call[2]), L([S(x) for x in call[3]]))
         return "(CForUpdate _ None)"
     if k == "with":
-        return "(CWith _ %s (CArg %s [] None false false))" % (S(call[1]), S("#" + key + ".0"))
+        return "(CWith _ %s (CArg %s [] [] None false false))" % (S(call[1]), S("#" + key + ".0"))
     if k == "force_index":
         return "(CForceIndex _ %s)" % L([S(x) for x in call[1]])
     if k == "use_index":
         return "(CUseIndex _ %s)" % L([S(x) for x in call[1]])
     if k == "set":
-        return "(CSet _ (CArg %s [] None false false) %s)" % (S("F(%s|None)" % call[1]), const_coq(call[2]))
+        return "(CSet _ (CArg %s [] [] None false false) %s)" % (S("F(%s|None)" % call[1]), const_coq(call[2]))
     if k == "columns":
         items = []
         for n, it in enumerate(call[1]):
@@ -1066,7 +1068,7 @@ def corpus():
         {"cls": "Query", "prefix": [["update", a]],
          "calls": [["set", "x", 1], ["set", "y", "v"], ["where", ["cmp", "eq", ["x", a], 1]],
                    ["join", b, "inner", ["on", ["cmp", "eq", ["x", a], ["x", b]], None]], ["limit", 1]]},
-        # C14 neighbour: un-qualified field in an UPDATE join criterion raises in every order
+        # C14 neighbour: un-qualified field in an UPDATE join criterion (accepted since the C14 fix, in every order)
         {"cls": "Query", "prefix": [["update", a]],
          "calls": [["join", b, "inner", ["on", ["cmp", "eq", ["x", None], ["y", b]], None]], ["set", "x", 1]]},
         {"cls": "SQLLiteQuery", "prefix": [["into", a]],
